@@ -3,6 +3,7 @@ import Qryn.Proofs.LogQLPlan
 import Qryn.Gen.PlannerGlobals
 import Qryn.Gen.PlannerSelfWrites
 import Qryn.Proofs.ProcessTraceQL
+import Qryn.Proofs.ProcessMetric
 /-! # C14 — query translation is deterministic and a prepared plan can be re-executed -/
 namespace Qryn.C14
 open Qryn Qryn.Sql Qryn.LogQL
@@ -204,5 +205,58 @@ theorem stale_terms_after_error :
         Except.isOk = [false, false]) := by
   refine ⟨[⟨".a", .eq, .str [34, 98, 34] (some [98])⟩, ⟨"foo", .eq, .str [34, 120, 34] (some [120])⟩],
     .node .and (.leaf 0) (.leaf 1), ⟨0, 1, 0, 0, false, "a", "b", "c", "d", 0, 0, []⟩, ?_, ?_, ?_⟩ <;> decide +kernel
+
+end Qryn.C14
+
+/-! ## metric LogQL: the memo fields `fpCache`, `labelsCache` and the `ctx.Id()` counter as state (`LogQL/ProcessMetric.lean`) -/
+namespace Qryn.C14
+open Qryn Qryn.Sql Qryn.LogQL
+
+/-- the first execution of a fresh metric plan is the translation `planMetric` of C08 -/
+theorem first_execution_metric (c : MCtx) (q : MetricQuery) : (processMetric {} c q).2 = planMetric c q :=
+  metricChainP_fresh c q
+
+/-- **process_stable_metric.** A prepared metric plan — range functions over a selector of the C07 fragment, `unwrap`,
+    `by`/`without` with and without the time-series join, `topk`, comparisons, the metrics_15s shortcut —, whatever
+    `fpCache` and `labelsCache` hold (what earlier executions memoized, or anything else), processed any number of
+    times with any contexts: every statement is exactly `planMetric` for ITS context. The proof follows the memo
+    fields and the `ctx.Id()` counter through every planner of the chain in the order the Go code calls them
+    (`Proofs/ProcessMetric.lean`: `withConnector_ok`, `labelsJoinP_spec`, `byWithoutTSP_ok`, `fold_spec`). -/
+theorem process_stable_metric (st : MPlanState) (q : MetricQuery) (cs : List MCtx) :
+    runsMetric st q cs = cs.map (fun c => planMetric c q) := by
+  induction cs generalizing st with
+  | nil => rfl
+  | cons c cs ih =>
+    simp only [runsMetric, List.map_cons, List.cons.injEq]
+    exact ⟨metricChainP_fresh c q, ih _⟩
+
+/-- inside one execution the planners DO communicate through the memo: after `Process` the fingerprint sub-query is
+    memoized (so `process_stable_metric` is not true because nothing is ever stored) -/
+theorem metric_memo_is_used (c : MCtx) (q : MetricQuery) :
+    ∃ lc, (metricChainP c q ⟨none, none, 0⟩).1.fpCache = some (fpWith c.toCtx q.rangeAgg.sel) ∧
+      (metricChainP c q ⟨none, none, 0⟩).1.labelsCache = lc := ⟨_, by
+  obtain ⟨lc, hs⟩ := steps_spec c q
+  have hi := mapP_spec c q (stepFixSel c q.rangeAgg.durNs) hs
+  unfold metricChainP
+  cases hm : matrixLabels q with
+  | true =>
+    have := mapP_spec c q finalizeMatrix hi ⟨none, none, 0⟩ (Or.inl ⟨rfl, rfl⟩) rfl
+    simp only [if_true]
+    rw [this]
+  | false =>
+    have := mapP_spec c q finalizeMatrix (labelsJoinP_spec c q false hi) ⟨none, none, 0⟩ (Or.inl ⟨rfl, rfl⟩) rfl
+    simp only [Bool.false_eq_true, if_false]
+    rw [this], rfl⟩
+
+/-- what the code did before `cacheResetPlanner` existed: from the second execution on `ByWithoutPlanner.processTSTable`
+    found its own `labels_1` of the previous execution in the memo and defined the new `labels_1` as a filter over
+    `labels_1` — a sub-query selecting from itself; the fresh translation never does -/
+theorem stale_labels_self_reference :
+    ∃ (q : MetricQuery) (c : MCtx),
+      (runsMetricNoReset {} q [c, c]).map selfRefWith = [false, true] ∧
+      (runsMetric {} q [c, c]).map selfRefWith = [false, false] ∧ selfRefWith (planMetric c q) = false := by
+  refine ⟨.agg ⟨.sum, some ⟨true, ["a"]⟩, ⟨.lra .countOverTime, ⟨[⟨[97], .eq, [98]⟩], []⟩, 7000000000, none, none, none⟩, none, none⟩,
+    ⟨⟨1700000000000000000, 1700000300000000000, 0, false, 1, false, "g", "s", "t", "t"⟩, 5000000000, "m"⟩, ?_, ?_, ?_⟩ <;>
+    decide +kernel
 
 end Qryn.C14
